@@ -516,7 +516,9 @@ def _work_d(item):
             ssa = full[: rng.randint(0, max(0, len(full) - 1))]
         else:
             ssa = random_ssa_path(n, rng, complete=(k % 4 == 1))
-        fmt = "ssa_path" if k % 3 else "path"
+        fmt = ("ssa_path", "path", "autocomplete()", "ssa_path", "path", "compressed")[k % 6]
+        if fmt == "compressed" and not (pc.is_ordinary(inputs) and all(len(c) == 2 for c in ssa)):
+            fmt = "autocomplete()"
         if pc.too_many_timeouts():
             break
         msg = _guarded(check_incomplete, inputs, output, sd, ssa, fmt)
